@@ -12,3 +12,5 @@ pub assume_specification<T, P: FnOnce(&T) -> bool>[ Option::<T>::filter::<P> ](o
         None => r.is_none(),
         Some(x) => (p.ensures((&x,), true) ==> r == Some(x)) && (p.ensures((&x,), false) ==> r.is_none()) && (r.is_some() ==> r == Some(x)),
     };
+/// String::len(): some number (the byte length; nothing is derived from it)
+pub assume_specification[ String::len ](s: &String) -> (r: usize);
